@@ -7,7 +7,7 @@ Mirrors (line numbers of the pinned tree, after the proposed repairs D22 and D29
 * `__setattr__` / `set_nw_src` on a fresh `ofp_match()` (`:1039-1053,1069-1143`)  → `fromHeaders`;
 * `from_packet(..., spec_frags=True)` (`:947-1013`)                         → `extract`, `fromPacket`;
 * `_normalize_wildcards`, `_unwire_wildcards`, `unpack(flow_mod=True)` (`:1232-1244,1314-1341,1352-1372`) → `normalize`, `unwire`, `ofWire`;
-* `_wire_wildcards` (`:1246-1283`)                                          → `wireWildcards`;
+* `_wire_wildcards` (`:1246-1283`), `pack(flow_mod=True)` (`:1186-1232`)         → `wireWildcards`, `packFlowMod`;
 * `is_wildcarded` / `is_exact` (`:1344-1350`), `__eq__` (`:1460-1475`)       → `isWildcarded`, `eqMatch`;
 * `matches_with_wildcards(other, consider_other_wildcards)` (`:1402-1458`) with `IPAddr.inNetwork` (`addresses.py:357-375`)
   → `matchesWith`.
@@ -228,8 +228,10 @@ def OHeaders.get (o : OHeaders) : Fld → Option Nat
   | .inPort => o.inPort | .dlVlan => o.dlVlan | .dlSrc => o.dlSrc | .dlDst => o.dlDst | .dlType => o.dlType
   | .nwProto => o.nwProto | .tpSrc => o.tpSrc | .tpDst => o.tpDst | .dlVlanPcp => o.dlVlanPcp | .nwTos => o.nwTos
 
-/-- the field logic of `from_packet(packet, in_port, spec_frags=True)` -/
-def extract (p : PHdr) (inPort : Option Nat) : OHeaders :=
+/-- The field logic of `from_packet(packet, in_port, spec_frags)`.
+    `arpGuard` = the ARP branch is guarded by `if p.opcode <= 255:` (as at `/repo` HEAD); without the guard (proposed repair
+    `fixes/C03_D37_arp_opcode_low8.diff`) the branch assigns `nw_proto = p.opcode & 0xff` and the addresses unconditionally. -/
+def extractG (arpGuard specFrags : Bool) (p : PHdr) (inPort : Option Nat) : OHeaders :=
   let t0 := if p.typ < 1536 then DL_TYPE_NOT_ETH else p.typ
   -- `if isinstance(p, llc): if p.has_snap and p.oui == b'\0\0\0': dl_type = p.eth_type; p = p.next`
   -- (an LLC header without a recognised SNAP header stays `p`: neither the vlan nor the L3 branch applies)
@@ -246,14 +248,19 @@ def extract (p : PHdr) (inPort : Option Nat) : OHeaders :=
   match l3 with
   | .ipv4 s d pr tos frag l4 =>
     let ip := { base with nwSrc := some s, nwDst := some d, nwProto := some pr, nwTos := some tos }
-    if frag then { ip with tpSrc := some 0, tpDst := some 0 }
+    -- `if spec_frags and ((p.flags & p.MF_FLAG) or p.frag != 0): tp_src = tp_dst = 0; return`
+    if specFrags && frag then { ip with tpSrc := some 0, tpDst := some 0 }
     else match l4 with
       | .ports a b => { ip with tpSrc := some a, tpDst := some b }
       | .icmp t c => { ip with tpSrc := some t, tpDst := some c }
       | .none => ip
   | .arp op s d =>
-    if op ≤ 255 then { base with nwProto := some op, nwSrc := some s, nwDst := some d } else base
+    if arpGuard then (if op ≤ 255 then { base with nwProto := some op, nwSrc := some s, nwDst := some d } else base)
+    else { base with nwProto := some (op % 256), nwSrc := some s, nwDst := some d }
   | .other => base
+
+/-- `from_packet(packet, in_port, spec_frags=True)` as at `/repo` HEAD -/
+def extract (p : PHdr) (inPort : Option Nat) : OHeaders := extractG true true p inPort
 
 /-- `ofp_match()` : every field at its default, `wildcards = _normalize_wildcards(OFPFW_ALL)` -/
 def empty : OfMatch :=
@@ -282,5 +289,30 @@ def fromHeaders (o : OHeaders) : OfMatch :=
 
 /-- `ofp_match.from_packet(packet, in_port, spec_frags=True)` -/
 def fromPacket (p : PHdr) (inPort : Nat) : OfMatch := fromHeaders (extract p (some inPort))
+
+/-- `ofp_match.from_packet(packet, in_port, spec_frags)` in general (`in_port` may be `None`; controllers call it with
+    `spec_frags=False`, the default) -/
+def fromPacketG (arpGuard specFrags : Bool) (p : PHdr) (inPort : Option Nat) : OfMatch :=
+  fromHeaders (extractG arpGuard specFrags p inPort)
+
+/-- The 40-byte record `pack(flow_mod=True)` writes (`:1186-1232`, `adjust_wildcards` at its class default `True`):
+    wildcard word `_wire_wildcards(self.wildcards)`; every field is `self.f or 0` (attribute view: `None` when wildcarded), the
+    IP fields only for dl_type 0x0800 / 0x0806 (`check_ip`, `check_ip_or_arp`), the transport fields only for dl_type 0x0800 with
+    nw_proto 1, 6 or 17 (`check_tp`).  Value ranges of `struct.pack` are C01's subject. -/
+def packFlowMod (m : OfMatch) : OfMatch :=
+  let v := fun f => (m.view f).getD 0                    -- `self.f or 0`
+  let isIp := m.view .dlType == some 0x0800
+  let isArp := m.view .dlType == some 0x0806
+  let l4 := match m.view .nwProto with
+    | some p => isL4Proto p
+    | none => false
+  { wildcards := m.wireWildcards, inPort := v .inPort, dlSrc := v .dlSrc, dlDst := v .dlDst, dlVlan := v .dlVlan,
+    dlVlanPcp := v .dlVlanPcp, dlType := v .dlType,
+    nwTos := if isIp then v .nwTos else 0,
+    nwProto := if isIp || isArp then v .nwProto else 0,
+    nwSrc := if isIp || isArp then (m.srcView.map (·.1)).getD 0 else 0,
+    nwDst := if isIp || isArp then (m.dstView.map (·.1)).getD 0 else 0,
+    tpSrc := if isIp && l4 then v .tpSrc else 0,
+    tpDst := if isIp && l4 then v .tpDst else 0 }
 
 end Pox.OF
